@@ -21,12 +21,61 @@ def available() -> bool:
         return False
 
 
-def run_campaigns(pid: str, oracle, nprocs: int, runs: int, seed: int, max_len: int, timeout_s: int):
-    """Returns dict(executions, campaigns, violations=[(case_enc, detail, sig)], unconfirmed, notes)."""
-    res = {"executions": 0, "campaigns": 0, "violations": [], "unconfirmed": 0, "notes": []}
+def start_campaigns(pid: str, nprocs: int, runs: int, seed: int, max_len: int):
+    """Start the campaign subprocesses (they run while the Hypothesis workers do); finish with finish_campaigns()."""
     if not available():
+        return None
+    root = tempfile.mkdtemp(prefix="verif-fuzz-")
+    procs = []
+    for i in range(nprocs):
+        out = os.path.join(root, f"c{i}")
+        os.makedirs(out)
+        mode = "empty" if i % 2 == 0 else "fixtures"  # both an empty corpus and valid seeds: they can behave very differently
+        cmd = [sys.executable, os.path.join(VERIF_DIR, "fuzz", "target.py"), pid, out, mode, f"-runs={runs}", f"-seed={seed * 1000 + i + 1}", f"-max_len={max_len}", f"-artifact_prefix={out}/", "-print_final_stats=0"]
+        log = open(os.path.join(out, "log.txt"), "w")
+        procs.append((out, mode, subprocess.Popen(cmd, stdout=log, stderr=subprocess.STDOUT, text=True, cwd=VERIF_DIR), log))
+    return {"root": root, "procs": procs}
+
+
+def finish_campaigns(handle, oracle, timeout_s: int):
+    res = {"executions": 0, "campaigns": 0, "violations": [], "unconfirmed": 0, "notes": []}
+    if handle is None:
         res["notes"].append("atheris not importable: coverage-guided campaign skipped")
         return res
+    try:
+        for out, mode, p, log in handle["procs"]:
+            try:
+                p.wait(timeout=timeout_s)
+            except subprocess.TimeoutExpired:
+                p.kill()
+                p.wait()
+                res["notes"].append(f"campaign ({mode}) stopped at the {timeout_s}s wall-clock budget (inconclusive, not a violation)")
+            log.close()
+            text = open(os.path.join(out, "log.txt"), errors="replace").read()
+            res["campaigns"] += 1
+            m = re.findall(r"Done (\d+) runs", text or "")
+            if m:
+                res["executions"] += int(m[-1])
+            else:
+                m2 = re.findall(r"^#(\d+)\s", text or "", flags=re.M)
+                if m2:
+                    res["executions"] += int(m2[-1])
+            for vf in sorted(glob.glob(os.path.join(out, "violation-*.json"))):
+                doc = json.load(open(vf))
+                try:
+                    oracle(dec(doc["case"]))
+                    res["unconfirmed"] += 1
+                except Violation as v:
+                    res["violations"].append((doc["case"], v.detail, v.sig))
+    finally:
+        shutil.rmtree(handle["root"], ignore_errors=True)
+    return res
+
+
+def run_campaigns(pid: str, oracle, nprocs: int, runs: int, seed: int, max_len: int, timeout_s: int):
+    """Returns dict(executions, campaigns, violations=[(case_enc, detail, sig)], unconfirmed, notes)."""
+    return finish_campaigns(start_campaigns(pid, nprocs, runs, seed, max_len), oracle, timeout_s)
+    res = {"executions": 0, "campaigns": 0, "violations": [], "unconfirmed": 0, "notes": []}
     procs = []
     root = tempfile.mkdtemp(prefix="verif-fuzz-")
     try:
